@@ -92,6 +92,7 @@ func genTiming() {
 	files := []struct{ name, file string }{{"ipfix", "vflow/ipfix.go"}, {"nf9", "vflow/netflow_v9.go"}, {"nf5", "vflow/netflow_v5.go"}, {"sflow", "vflow/sflow.go"}}
 	var rows, orders []string
 	man := map[string]interface{}{}
+	idx := indexPackage("vflow")
 	for _, pf := range files {
 		_, f := parseFile(pf.file)
 		deadline, grace := int64(-1), int64(-1)
@@ -102,12 +103,14 @@ func genTiming() {
 				continue
 			}
 			if fd.Name.Name == "run" {
-				ast.Inspect(fd.Body, func(n ast.Node) bool {
+				rt, rv := recvOf(fd)
+				scope := &ast.BlockStmt{List: idx.stmtsThroughHelpers(fd.Body.List, rt, rv, 2)}
+				ast.Inspect(scope, func(n ast.Node) bool {
 					if e, ok := n.(ast.Expr); ok {
 						if c, ok := isCall(e, "", "SetReadDeadline"); ok && len(c.Args) == 1 {
 							// time.Now().Add(D)
 							if add, ok := isCall(c.Args[0], "", "Add"); ok && len(add.Args) == 1 {
-								if v, ok := duration(add.Args[0]); ok {
+								if v, ok := idx.durationIn(add.Args[0]); ok {
 									if deadline >= 0 && deadline != v {
 										problem("%s: several read deadlines in run()", pf.file)
 									}
@@ -124,8 +127,10 @@ func genTiming() {
 				})
 			}
 			if fd.Name.Name == "shutdown" {
-				// top-level statements only: the order in which the steps are executed
-				for _, st := range fd.Body.List {
+				// top-level statements only: the order in which the steps are executed (a step moved into a helper that is called as a
+				// plain statement is still that step; a dump started with `go`, or handed to a helper as a function value, is not)
+				srt, srv := recvOf(fd)
+				for _, st := range idx.stmtsThroughHelpers(fd.Body.List, srt, srv, 2) {
 					switch s := st.(type) {
 					case *ast.AssignStmt:
 						if len(s.Lhs) == 1 && len(s.Rhs) == 1 {
@@ -137,7 +142,7 @@ func genTiming() {
 						}
 					case *ast.ExprStmt:
 						if c, ok := isCall(s.X, "time", "Sleep"); ok && len(c.Args) == 1 {
-							if v, ok := duration(c.Args[0]); ok {
+							if v, ok := idx.durationIn(c.Args[0]); ok {
 								if grace < 0 {
 									grace = 0
 								}
